@@ -575,3 +575,51 @@ package state
 //@ ensures[applied-only-if-matched] ok ==> old(nodeAt(nodeName, peerName)) != nil && old(nodeAt(nodeName, peerName).ModifyIndex) == cidx
 //@ ensures[mismatch-writes-nothing] !(old(nodeAt(nodeName, peerName)) != nil && old(nodeAt(nodeName, peerName).ModifyIndex) == cidx) ==> !ok && catalogUntouched()
 //@ ensures[err-not-ok] err != nil ==> !ok
+
+//@ pure serviceAt(node string, id string, peer string) *structs.ServiceNode = T_services(NodeServiceQuery{Node: node, Service: id, PeerName: peer})
+
+//@ func ensureServiceCASTxn
+//@ props C10
+//@ results err
+//@ requires svc != nil
+//@ ensures[applied-only-if-matched] err == nil ==> (old(svc.ModifyIndex) == 0 && old(serviceAt(node, svc.ID, svc.PeerName)) == nil) || (old(svc.ModifyIndex) != 0 && old(serviceAt(node, svc.ID, svc.PeerName)) != nil && old(serviceAt(node, svc.ID, svc.PeerName).ModifyIndex) == old(svc.ModifyIndex))
+//@ ensures[mismatch-writes-nothing] !((old(svc.ModifyIndex) == 0 && old(serviceAt(node, svc.ID, svc.PeerName)) == nil) || (old(svc.ModifyIndex) != 0 && old(serviceAt(node, svc.ID, svc.PeerName)) != nil && old(serviceAt(node, svc.ID, svc.PeerName).ModifyIndex) == old(svc.ModifyIndex))) ==> err != nil && catalogUntouched()
+
+//@ func Store.deleteServiceCASTxn
+//@ props C10
+//@ results ok, err
+//@ ensures[applied-only-if-matched] ok ==> old(serviceAt(nodeName, serviceID, peerName)) != nil && old(serviceAt(nodeName, serviceID, peerName).ModifyIndex) == cidx
+//@ ensures[mismatch-writes-nothing] !(old(serviceAt(nodeName, serviceID, peerName)) != nil && old(serviceAt(nodeName, serviceID, peerName).ModifyIndex) == cidx) ==> !ok && catalogUntouched()
+//@ ensures[err-not-ok] err != nil ==> !ok
+
+// ---- C10: config entry check-and-set (the write/validation paths ensureConfigEntryTxn / deleteConfigEntryTxn are
+// ASSUMED: trusted contracts with arbitrary effect on the tx)
+
+//@ file config_entry.go
+
+//@ func ensureConfigEntryTxn
+//@ trusted
+//@ results rerr
+//@ func deleteConfigEntryTxn
+//@ trusted
+//@ results rerr
+
+//@ pure configAt(c structs.ConfigEntry) structs.ConfigEntry = T_config_entries(configentry.KindName{Kind: c.GetKind(), Name: c.GetName()})
+
+//@ func Store.EnsureConfigEntryCAS
+//@ props C10
+//@ results ok, err
+//@ requires conf != nil
+//@ ensures[applied-only-if-matched] ok ==> (cidx == 0 && old(configAt(conf)) == nil) || (cidx != 0 && old(configAt(conf)) != nil && old(configAt(conf).GetRaftIndex().ModifyIndex) == cidx)
+//@ ensures[mismatch-rejected] !((cidx == 0 && old(configAt(conf)) == nil) || (cidx != 0 && old(configAt(conf)) != nil && old(configAt(conf).GetRaftIndex().ModifyIndex) == cidx)) ==> !ok && commits() == old(commits()) && (forall k string :: T_config_entries(k) == old(T_config_entries(k)))
+//@ ensures[reported-iff-committed] commits() == ite(ok, old(commits()) + 1, old(commits()))
+//@ ensures[err-not-ok] err != nil ==> !ok
+
+//@ func Store.DeleteConfigEntryCAS
+//@ props C10
+//@ results ok, err
+//@ requires conf != nil
+//@ ensures[applied-only-if-matched] ok ==> old(configAt(conf)) != nil && old(configAt(conf).GetRaftIndex().ModifyIndex) == cidx
+//@ ensures[mismatch-rejected] !(old(configAt(conf)) != nil && old(configAt(conf).GetRaftIndex().ModifyIndex) == cidx) ==> !ok && commits() == old(commits()) && (forall k string :: T_config_entries(k) == old(T_config_entries(k)))
+//@ ensures[reported-iff-committed] commits() == ite(ok, old(commits()) + 1, old(commits()))
+//@ ensures[err-not-ok] err != nil ==> !ok
